@@ -155,10 +155,12 @@ def _tensor_token(kind: str, dtype: int, dims, doc, meta: dict, payload) -> tupl
     return data, _j(["tensor", int(dtype), ""]), _j([["v", int(d), ""] for d in dims])
 
 
-def tensor_tokens_of_proto(t: onnx.TensorProto) -> tuple[str, str, str]:
+def tensor_tokens_of_proto(t: onnx.TensorProto, meta: dict | None = None) -> tuple[str, str, str]:
     """(data, ty, sh): payload token (everything but the name, decoded independently of onnx_ir) and the
-    tokens of the TensorType(dtype) / Shape(dims) a fresh initializer value receives."""
-    meta = {e.key: e.value for e in t.metadata_props}
+    tokens of the TensorType(dtype) / Shape(dims) a fresh initializer value receives.  `meta` overrides the
+    metadata of the proto (a proto-backed IR tensor whose metadata_props were edited)."""
+    if meta is None:
+        meta = {e.key: e.value for e in t.metadata_props}
     doc = t.doc_string if t.HasField("doc_string") else None
     if t.data_location == onnx.TensorProto.EXTERNAL:
         ent = {}
@@ -184,7 +186,7 @@ def tensor_tokens_of_proto(t: onnx.TensorProto) -> tuple[str, str, str]:
 def tensor_tokens_of_ir(t) -> tuple[str, str, str]:
     """the same token computed from an IR tensor object through its public accessors"""
     if isinstance(t, serde.TensorProtoTensor):
-        return tensor_tokens_of_proto(t.raw)
+        return tensor_tokens_of_proto(t.raw, meta=dict(t.metadata_props))
     meta = dict(t.metadata_props)
     dims = list(t.shape.numpy())
     if isinstance(t, ir.ExternalTensor):
@@ -264,6 +266,32 @@ def graph_proto_to_model(g: onnx.GraphProto, flags: dict | None = None) -> dict:
     }
 
 
+def func_proto_to_model(f: onnx.FunctionProto, flags: dict | None = None) -> dict:
+    """Abstract a FunctionProto (IR version >= 10 format) into the model's FuncP JSON."""
+    if flags is None:
+        flags = {}
+
+    def vinfo(vi):
+        tok, so = token_of_value_info(vi)
+        if so:
+            flags["shape_only"] = flags.get("shape_only", 0) + 1
+        if len(vi.metadata_props):
+            flags["vinfo_metadata"] = flags.get("vinfo_metadata", 0) + 1
+        return [vi.name, tok]
+
+    nodes = []
+    for n in f.node:
+        nodes.append({"i": list(n.input), "o": list(n.output),
+                      "g": [graph_proto_to_model(s, flags) for s in _subgraphs_of_node_proto(n)]})
+    return {"id": [f.domain, f.name, f.overload], "inputs": list(f.input), "outputs": list(f.output),
+            "vinfo": [vinfo(v) for v in f.value_info], "nodes": nodes}
+
+
+def model_proto_to_model(m: onnx.ModelProto, flags: dict | None = None) -> dict:
+    """main graph + functions of a ModelProto as the request of `scope.mdeser`"""
+    return {"p": graph_proto_to_model(m.graph, flags), "funcs": [func_proto_to_model(f, flags) for f in m.functions]}
+
+
 # --------------------------------------------------------------------------- IR -> model World
 
 
@@ -319,7 +347,7 @@ class _Numbering:
         return self.tensors[k]
 
 
-def ir_graph_to_world(graph: ir.Graph, flags: dict | None = None) -> dict:
+def ir_graph_to_world(graph: ir.Graph, flags: dict | None = None, funcs: list | None = None) -> dict:
     """Dump a real IR graph (with nested graphs) as the model's World JSON.  Numbering = first
     encounter in the traversal: graph inputs, initializers, per node (inputs, outputs, subgraphs),
     graph outputs.  Raises OutsideModel when a Graph object occurs twice (nesting is not a tree)."""
@@ -348,6 +376,9 @@ def ir_graph_to_world(graph: ir.Graph, flags: dict | None = None) -> dict:
         return {"id": gid, "inputs": ins, "inits": inits, "nodes": nodes, "outputs": outs}
 
     root = walk_graph(graph)
+    fworlds = []
+    for fid, fg in funcs or []:
+        fworlds.append([list(fid), walk_graph(fg)])
 
     def fix_nodes(gt):
         for n in gt["nodes"]:
@@ -357,6 +388,8 @@ def ir_graph_to_world(graph: ir.Graph, flags: dict | None = None) -> dict:
                 fix_nodes(s)
 
     fix_nodes(root)
+    for _, fw in fworlds:
+        fix_nodes(fw)
     vals = []
     for v in num.vobjs:
         tok, so = token_of_value(v)
@@ -387,7 +420,15 @@ def ir_graph_to_world(graph: ir.Graph, flags: dict | None = None) -> dict:
     tens = []
     for t in num.tobjs:
         tens.append([t.name, *tensor_tokens_of_ir(t)])
-    return {"vals": vals, "tens": tens, "nn": len(num.nobjs), "ng": len(num.gobjs), "root": root}
+    res = {"vals": vals, "tens": tens, "nn": len(num.nobjs), "ng": len(num.gobjs), "root": root}
+    if funcs is not None:
+        res["funcs"] = fworlds
+    return res
+
+
+def ir_model_to_world(model: ir.Model, flags: dict | None = None) -> dict:
+    """main graph and functions (in dict order) of an IR model as the model's MWorld JSON"""
+    return ir_graph_to_world(model.graph, flags, funcs=[(k, f.graph) for k, f in model.functions.items()])
 
 
 def owner_graph_of(v: ir.Value):
@@ -429,6 +470,8 @@ def canon_world(w: dict) -> dict:
             v(x)
 
     walk(w["root"])
+    for _, fg in w.get("funcs") or []:
+        walk(fg)
 
     def ren_graph(g):
         return {
@@ -464,7 +507,10 @@ def canon_world(w: dict) -> dict:
     tens = [None] * len(tmap)
     for old, new in tmap.items():
         tens[new] = list(w["tens"][old])
-    return {"vals": vals, "tens": tens, "root": root}
+    res = {"vals": vals, "tens": tens, "root": root}
+    if "funcs" in w:
+        res["funcs"] = [[list(fid), ren_graph(fg)] for fid, fg in w["funcs"]]
+    return res
 
 
 def world_for_ser(w: dict) -> dict:
@@ -570,6 +616,86 @@ def check_consistency(graphs: Iterable[ir.Graph]) -> list[str]:
         ):
             bad.append(f"value {v.name!r}: is_initializer but not in its graph's initializers")
     return bad
+
+
+def resolution_mismatches(gp: onnx.GraphProto, g: ir.Graph, outer: list | None = None, where: str = "graph") -> list[str]:
+    """Independent oracle for name resolution: the names of the proto are resolved innermost scope first
+    (graph inputs, initializers and ALL node outputs of a graph are in scope for its nodes; a name
+    found nowhere is a placeholder of the current scope from then on) and the Value object each node
+    input of the deserialized IR holds is compared, by identity, with the object the name resolves to.
+    Proto and IR are walked in lock step (nodes by position, graph attributes by name, the last
+    attribute of a name being the one that is kept).  Returns descriptions of mismatches."""
+    outer = outer or []
+    bad: list[str] = []
+    nodes = list(g)
+    if len(nodes) != len(gp.node) or len(g.inputs) != len(gp.input):
+        return [f"{where}: node / input count differs from the proto"]
+    scope: dict[str, object] = {}
+    for vi, v in zip(gp.input, g.inputs):
+        scope[vi.name] = v
+    for t in gp.initializer:
+        if t.name and t.name not in scope and t.name in g.initializers:
+            scope[t.name] = g.initializers[t.name]
+    for np_, n in zip(gp.node, nodes):
+        outs = list(n.outputs)
+        if len(outs) != len(np_.output):
+            return bad + [f"{where}: output count of node {np_.name!r} differs from the proto"]
+        for name, o in zip(np_.output, outs):
+            if name:
+                scope[name] = o
+    chain = outer + [scope]
+    for i, (np_, n) in enumerate(zip(gp.node, nodes)):
+        ins = list(n.inputs)
+        if len(ins) != len(np_.input):
+            return bad + [f"{where}: input count of node {np_.name!r} differs from the proto"]
+        for k, (name, v) in enumerate(zip(np_.input, ins)):
+            if name == "":
+                if v is not None:
+                    bad.append(f"{where}.node[{i}].input[{k}]: empty name but a value")
+                continue
+            want = None
+            for sc_ in reversed(chain):
+                if name in sc_:
+                    want = sc_[name]
+                    break
+            if want is None:
+                scope[name] = v  # a placeholder of the current scope from now on
+            elif v is not want:
+                bad.append(f"{where}.node[{i}].input[{k}] {name!r}: bound to another value than the innermost "
+                           f"definition of the name")
+        kept = {a.name: a for a in np_.attribute}
+        for aname, a in kept.items():
+            if a.HasField("ref_attr_name") and a.ref_attr_name:
+                continue
+            if aname not in n.attributes or n.attributes[aname].is_ref():
+                continue
+            iv = n.attributes[aname].value
+            if a.type == onnx.AttributeProto.GRAPH and isinstance(iv, ir.Graph):
+                bad.extend(resolution_mismatches(a.g, iv, chain, f"{where}.node[{i}].{aname}"))
+            elif a.type == onnx.AttributeProto.GRAPHS and isinstance(iv, (list, tuple)) and len(iv) == len(a.graphs):
+                for j, (sg, sv) in enumerate(zip(a.graphs, iv)):
+                    if isinstance(sv, ir.Graph):
+                        bad.extend(resolution_mismatches(sg, sv, chain, f"{where}.node[{i}].{aname}[{j}]"))
+    return bad
+
+
+def tensors_of_model(model: ir.Model) -> list:
+    """const tensors of initializers and tensor attributes, of every graph of the model"""
+    res = []
+    for g0 in model_graphs(model):
+        for g in iter_graph_tree(g0):
+            for v in g.initializers.values():
+                if v.const_value is not None:
+                    res.append(v.const_value)
+            for n in g:
+                for a in n.attributes.values():
+                    if a.is_ref() or a.value is None:
+                        continue
+                    if a.type == ir.AttributeType.TENSOR:
+                        res.append(a.value)
+                    elif a.type == ir.AttributeType.TENSORS:
+                        res.extend(a.value)
+    return res
 
 
 def model_graphs(model: ir.Model) -> list[ir.Graph]:
@@ -941,7 +1067,13 @@ def tensor_content(t) -> list:
         return ["string", t.dtype.value, list(t.shape.numpy()), [binascii.hexlify(x).decode() for x in t.string_data()]
                 if hasattr(t, "string_data") else [binascii.hexlify(x).decode() for x in t.numpy().ravel().tolist()],
                 _falsy_none(t.doc_string), sorted(t.metadata_props.items())]
-    return ["dense", t.dtype.value, list(t.shape.numpy()), _sha(t.tobytes()), _falsy_none(t.doc_string),
+    # element VALUES (bit patterns of numpy(), row-major), not tobytes(): a tensor backed by a non-C-contiguous
+    # array must describe the same elements before and after a round trip
+    try:
+        payload = np.ascontiguousarray(t.numpy()).tobytes()
+    except Exception:  # noqa: BLE001 - no numpy view: fall back to the byte form
+        payload = t.tobytes()
+    return ["dense", t.dtype.value, list(t.shape.numpy()), _sha(payload), _falsy_none(t.doc_string),
             sorted(t.metadata_props.items())]
 
 
